@@ -8,6 +8,7 @@ import CweModel.Base.Proto
 import CweModel.C13.Model
 import CweModel.C13.Eval
 import CweModel.C13.Cond
+import CweModel.C13.Join
 import CweModel.C12.Model
 open Lean CweModel.Proto CweModel.IR CweModel.Itv CweModel.MemRegion
 
@@ -418,7 +419,10 @@ def parseObjs (j : Json) : Except String Objs := do
     let cells ← mapM' (fun c => do
       let ca ← c.getArr?
       return ((← ca[0]!.getInt?), (← parseDData ca[1]!))) (← a[2]!.getArr?).toList
-    let ob : Obj := { unique := ← a[1]!.getBool?, mem := cells }
+    let targets ← match a[3]? with
+      | some t => mapM' (fun (x : Json) => x.getNat?) (← t.getArr?).toList
+      | none => pure []
+    let ob : Obj := { unique := ← a[1]!.getBool?, targets := targets, mem := cells }
     return ((← a[0]!.getNat?), ob)) (← j.getArr?).toList
 
 /-- the state `build_state` of the harness constructs -/
@@ -462,6 +466,7 @@ def stateDiff (m impl : MSt) : Option String :=
     else
       (m.objs.zip impl.objs).findSome? fun (a, b) =>
         if a.2.unique != b.2.unique then some s!"unique:id{a.1}"
+        else if a.2.targets != b.2.targets then some s!"pointer_targets:id{a.1} model={a.2.targets} impl={b.2.targets}"
         else if a.2.mem != b.2.mem then some s!"region:id{a.1} model={showRegion a.2.mem} impl={showRegion b.2.mem}"
         else none
 
@@ -689,6 +694,128 @@ def handleSc (j : Json) : Except String String := do
   return s!"ok sc {kind}" ++ (if inFrag then " in-proved-fragment" else " validated-only") ++ (if sat > 0 then " branch-taken-concretely" else "")
     ++ (if impl.isNone then " unsatisfiable" else "")
 
+
+/-! ## PI-lite streams 5 and 6: `State::merge`, `Context::update_call_stub` -/
+
+/-- a concrete state in γρ of an abstract state: registers by `pickState`, then a sampled member of every cell is
+written to the cell's address (`allObjs`: the cells of all objects, each at the base of its identifier; else the
+stack object only) -/
+def pickMachine (ρ : Nat → Int) (allObjs : Bool) (s : MSt) (seed k : Nat) : Option Sem.State :=
+  match pickState ρ s.st.regs seed k with
+  | none => none
+  | some σ0 =>
+    s.objs.foldl (fun (acc : Option Sem.State) (p : Nat × Obj) =>
+      if allObjs || p.1 == s.stackId then
+        p.2.mem.zipIdx.foldl (fun (acc : Option Sem.State) (ci : (Int × DData) × Nat) =>
+          match acc with
+          | none => none
+          | some σ =>
+            let ms := membersOf ρ ci.1.2 6
+            match ms[(k * 5 + ci.2 * 3 + seed) % ms.length]? with
+            | some v => some (σ.writeMem (cellAddr (ρ p.1) ci.1.1) ci.1.2.size v.toNat)
+            | none => none) acc
+      else acc) (some σ0)
+
+def sizes8 (s : MSt) : Bool := s.st.regs.all fun (_, d) => d.size ≤ 8
+
+def handleMg (j : Json) : Except String String := do
+  let sid ← natF j "sid"
+  let gid ← natF j "gid"
+  let seed ← natF j "seed"
+  let globalsA ← mapM' (fun g => g.getNat?) (← arrF (← field j "ia") "globals")
+  let implJ ← field j "impl"
+  if let .ok m := implJ.getStr? then
+    return s!"spec class=mg-impl-{(m.splitOn ":").headD "panic"} expected=state impl={m.take 100}"
+  let a ← parseImplState (← field implJ "a") globalsA sid gid
+  let b ← parseImplState (← field implJ "b") globalsA sid gid
+  let ab ← parseImplState (← field implJ "ab") globalsA sid gid
+  let ba ← parseImplState (← field implJ "ba") globalsA sid gid
+  -- 1. the soundness statement on the implementation output: every concrete state represented by an input is
+  --    represented by both merges
+  let inHyp := regsOk a && regsOk b && objsOk a && objsOk b && sizes8 a && sizes8 b &&
+    (objGet a.objs sid).isSome && (objGet b.objs sid).isSome
+  let mut checked := 0
+  if inHyp then
+    for k in List.range 6 do
+      let ρ := ((rhos gid)[k % 4]?).getD (fun _ => 0)
+      let separated := k % 4 == 0
+      for (src, name) in [(a, "left"), (b, "right")] do
+        match pickMachine ρ separated src seed k with
+        | none => pure ()
+        | some σ =>
+          -- the sample must really be in γ of its source (cells written later may overlap nothing: region invariant)
+          if (checkState ρ separated src σ).isNone then
+            checked := checked + 1
+            for (m0, mn) in [(ab, "ab"), (ba, "ba")] do
+              -- an object that only one input tracks is copied into the merge (the other path "has no such object"):
+              -- only the objects both inputs track are part of the statement
+              let m : MSt := { m0 with objs := m0.objs.filter fun p => (objGet a.objs p.1).isSome && (objGet b.objs p.1).isSome }
+              match checkState ρ separated m σ with
+              | some e => return s!"spec class=mg-excluded-{name}-in-{mn} expected=member impl={e} run={k}"
+              | none => pure ()
+  -- 2. model = implementation
+  for (x, y, impl, nm) in [(a, b, ab, "ab"), (b, a, ba, "ba")] do
+    match x.merge y with
+    | none => return s!"diff class=mg-stack-id model=assert-fails impl=state"
+    | some m =>
+      match stateDiff m impl with
+      | some e => return s!"diff class=mg-{nm} {e}"
+      | none => pure ()
+  let oneSided := a.objs.length != b.objs.length
+  let cellsBoth := a.objs.any (fun p => !p.2.mem.isEmpty) && b.objs.any (fun p => !p.2.mem.isEmpty)
+  return "ok mg" ++ (if inHyp then " constrained" else " modelonly") ++ (if checked > 0 then " concretely-checked" else "")
+    ++ (if oneSided then " object-on-one-side" else "") ++ (if cellsBoth then " cells-on-both-sides" else "")
+    ++ (if ab.objs.any (fun p => !p.2.mem.isEmpty) then " merged-cells" else "")
+
+def handleCs (j : Json) : Except String String := do
+  let sid ← natF j "sid"
+  let gid ← natF j "gid"
+  let seed ← natF j "seed"
+  let globals ← mapM' (fun g => g.getNat?) (← arrF (← field j "init") "globals")
+  let ext ← parseExternSymbol (← field j "symbol")
+  let cc ← parseCallingConvention (← field j "cconv")
+  let spJ ← arrF j "sp"
+  let sp : Variable := { name := ← spJ[0]!.getStr?, size := ← spJ[1]!.getNat? }
+  let implJ ← field j "impl"
+  if let .ok m := implJ.getStr? then
+    return s!"spec class=cs-impl-{(m.splitOn ":").headD "panic"} expected=state impl={m.take 100}"
+  let before ← parseImplState (← field implJ "before") globals sid gid
+  let afterJ ← field implJ "after"
+  if afterJ == Json.null then
+    return s!"diff class=cs-none:{ext.name} model=state impl=none"
+  let after ← parseImplState afterJ globals sid gid
+  let inFrag := noStackArgs ext && regsOk before && objsOk before && sizes8 before
+  -- 1. soundness on the implementation output: after a call that keeps the callee-saved registers, pops the return
+  --    address and leaves the memory alone, the concrete state is represented
+  let mut checked := 0
+  if regsOk before && objsOk before && sizes8 before then
+    for k in List.range 6 do
+      let ρ := ((rhos gid)[k % 4]?).getD (fun _ => 0)
+      let separated := k % 4 == 0
+      match pickMachine ρ separated before seed k with
+      | none => pure ()
+      | some σ =>
+        if (checkState ρ separated before σ).isNone then
+          -- the ABI effect of the call: havoc of everything that is neither callee-saved nor the stack pointer
+          let σ1 := msVars.foldl (fun (acc : Sem.State) v =>
+            if v == sp || cc.calleeSavedRegister.contains v then acc
+            else acc.setReg v (Bv.ofBytes v.size (Sem.mix (Sem.mix seed k) (Sem.strHash v.name)))) σ
+          let σ' := σ1.setReg sp (Bv.ofBytes sp.size ((σ.getReg sp).toNat + sp.size))
+          checked := checked + 1
+          match checkState ρ separated after σ' with
+          | some e =>
+            return s!"spec class=cs-excluded:{ext.name}{if inFrag then "" else "-validated"} expected=member impl={e} run={k}"
+          | none => pure ()
+  -- 2. model = implementation
+  match updateCallStub before sp cc ext with
+  | none => return s!"ok cs outside-model {ext.name}"
+  | some m =>
+    match stateDiff m after with
+    | some e => return s!"diff class=cs:{ext.name} {e}"
+    | none => pure ()
+  return s!"ok cs {ext.name}" ++ (if inFrag then " in-proved-fragment" else " validated-only")
+    ++ (if checked > 0 then " concretely-checked" else "") ++ (if stackMarked before cc ext then " stack-marked" else " stack-kept")
+
 def handleE (line : String) : Except String String := do
   let j ← Json.parse line
   match (← strF j "q") with
@@ -698,6 +825,8 @@ def handleE (line : String) : Except String String := do
   | "ev" => handleEv j
   | "ms" => handleMs j
   | "sc" => handleSc j
+  | "mg" => handleMg j
+  | "cs" => handleCs j
   | q => throw s!"unknown case kind {q}"
 
 end CweModel.C13
